@@ -10,7 +10,9 @@ pub mod c07;
 pub mod c08;
 pub mod c09;
 pub mod c10;
+pub mod c11;
 pub mod c12;
+pub mod c13;
 pub mod c14;
 pub mod c15;
 pub mod textgen;
@@ -27,7 +29,9 @@ pub fn dispatch(id: &str, cfg: Config) -> i32 {
         "C08" => crate::run_prop(c08::C08, cfg),
         "C09" => crate::run_prop(c09::C09, cfg),
         "C10" => crate::run_prop(c10::C10, cfg),
+        "C11" => crate::run_prop(c11::C11, cfg),
         "C12" => crate::run_prop(c12::C12, cfg),
+        "C13" => crate::run_prop(c13::C13, cfg),
         "C14" => crate::run_prop(c14::C14, cfg),
         "C15" => crate::run_prop(c15::C15, cfg),
         _ => {
